@@ -157,6 +157,8 @@ inductive Tok where
   | word (w : List Char)            -- keyword, identifier or number, as written (any case)
   | str (q : Char) (s : List Char)  -- quoted text, delimiter `q`
   | sym (c : Char)                  -- punctuation
+  | strEsc (q : Char) (segs : List (List Char)) (last : List Char)
+                                    -- quoted text with escaped delimiters: seg `\q` seg `\q` … last
   | lineComment (s : List Char)     -- `//` … LF
   | blockComment (s : List Char)    -- `/*` … `*/`
 deriving DecidableEq, Repr
@@ -173,9 +175,17 @@ def Sep.chars : Sep → List Char
   | .lf => ['\n']
   | .crlf => ['\r', '\n']
 
+/-- segments each followed by an escaped delimiter (`\'` inside `'…'`) -/
+def escBody (q : Char) : List (List Char) → List Char
+  | [] => []
+  | s :: r => s ++ ('\\' :: q :: escBody q r)
+
+def cleanSeg (q : Char) (s : List Char) : Bool := s.all (fun c => c != q && c != '\\')
+
 def Tok.chars : Tok → List Char
   | .word w => w
   | .str q s => q :: (s ++ [q])
+  | .strEsc q segs last => q :: (escBody q segs ++ (last ++ [q]))
   | .sym c => [c]
   | .lineComment s => '/' :: '/' :: (s ++ ['\n'])
   | .blockComment s => '/' :: '*' :: (s ++ ['*', '/'])
@@ -187,6 +197,7 @@ def render : List (Tok × Sep) → List Char
 def Tok.wf : Tok → Bool
   | .word w => !w.isEmpty && w.all isWordChar
   | .str q s => isQuote q && s.all (fun c => c != q && c != '\\')
+  | .strEsc q segs last => isQuote q && segs.all (cleanSeg q) && cleanSeg q last
   | .sym c => !isWordChar c && !isQuote c && c != '/'
   | .lineComment s => s.all (fun c => c != '\n')
   | .blockComment s => s.all (fun c => c != '*')
